@@ -34,3 +34,16 @@ Definition list_splice (dst:list N) (a:N) (src:list N) : list N :=
 Definition attr_is_mi (k:N) : bool := (k =? 1)%N.
 Definition attr_is_sha (k:N) : bool := (k =? 2)%N.
 Definition attr_is_fp (k:N) : bool := (k =? 3)%N.
+(* vectors of the translated agent code are lists; an attribute of StunAttributes is (wire type, payload) *)
+Fixpoint list_position {A} (p:A -> bool) (l:list A) : option N :=
+  match l with [] => None | x :: r => if p x then Some 0%N else match list_position p r with Some i => Some (i + 1)%N | None => None end end.
+Fixpoint list_set_nat {A} (l:list A) (i:nat) (v:A) : list A :=
+  match l, i with [], _ => [] | _ :: r, O => v :: r | x :: r, S j => x :: list_set_nat r j v end.
+Definition list_set {A} (l:list A) (i:N) (v:A) : list A := list_set_nat l (N.to_nat i) v.
+Definition list_get (l:list (N * N)) (i:N) : N * N := nth (N.to_nat i) l (0%N, 0%N).
+Fixpoint list_remove_nat {A} (l:list A) (i:nat) : list A :=
+  match l, i with [], _ => [] | _ :: r, O => r | x :: r, S j => x :: list_remove_nat r j end.
+Definition list_remove {A} (l:list A) (i:N) : list A := list_remove_nat l (N.to_nat i).
+Definition sattr_is_mi (a:N * N) : bool := (fst a =? 8)%N.
+Definition sattr_is_sha (a:N * N) : bool := (fst a =? 28)%N.
+Definition sattr_is_fp (a:N * N) : bool := (fst a =? 32808)%N.
